@@ -35,7 +35,7 @@ KIND = {"empty": "E", "whole": "W", "simple": "S", "connected": "C", "disjoint":
 
 
 def budget(tier):
-    return 192 if tier == "quick" else 4000
+    return 192 if tier == "quick" else 1500
 
 
 def kind_of(shape):
